@@ -550,7 +550,8 @@ def run(ctx):
         items += [norm_item(gen_item(rng)) for _ in range(n)]
     cases, model_lines, meta = [], [], []
     per = 25
-    head = ["Q\tu%d\t1\tuse_module(library(%s))." % (i, m) for i, m in enumerate(["reif", "dif", "iso_ext"])]
+    def head(tag):
+        return ["Q\tu%s_%d\t1\tuse_module(library(%s))." % (tag, i, m) for i, m in enumerate(["reif", "dif", "iso_ext"])]
     for i, it in enumerate(items):
         iid = "i%d" % i
         impl, model, q1, q2 = render(it, iid)
@@ -558,8 +559,7 @@ def run(ctx):
         meta.append((iid, it, q1, q2))
         if i % per == 0:
             k = i // per
-            cases.append([h.replace("\tu", "\tu%d_" % k) for h in head] +
-                         ["L\tl%d\tuser\t%s" % (k, esc(HELPERS))])
+            cases.append(head(str(k)) + ["L\tl%d\tuser\t%s" % (k, esc(HELPERS))])
         cases[-1].extend(impl)
     t0 = time.time()
     model = core.run_model(model_lines)
@@ -567,7 +567,7 @@ def run(ctx):
     flaky = [m for m in meta if transient(impl.get(m[0] + "r")) or transient(impl.get(m[0] + "x"))]
     retried = len(flaky)
     if flaky:
-        lines = [h.replace("\tu", "\tuR_") for h in head] + ["L\tlR\tuser\t%s" % esc(HELPERS)]
+        lines = head("R") + ["L\tlR\tuser\t%s" % esc(HELPERS)]
         for iid, it, q1, q2 in flaky[:400]:
             lines += render(it, iid)[0]
         impl.update(core.run_impl(lines, env={"SV_TIMEOUT_MS": "60000"}))
